@@ -203,7 +203,12 @@ def extract(target):
         if nm.startswith("loop#"):
             # the body of the k-th loop (source order, own loops only) as a parameterless function whose
             # free variables (loop targets included) are supplied by the contract's closure
-            k = int(nm[5:])
+            spec_ = nm[5:]
+            outs = []
+            if ">" in spec_:
+                spec_, o = spec_.split(">", 1)
+                outs = [x for x in o.split(",") if x]
+            k = int(spec_)
             own = [n for n in ast.walk(node) if isinstance(n, (ast.For, ast.While))]
             own.sort(key=lambda n: (n.lineno, n.col_offset))
             if not 1 <= k <= len(own):
@@ -211,7 +216,10 @@ def extract(target):
             loop = own[k - 1]
             fn = ast.FunctionDef(name="loop%d_body" % k, args=ast.arguments(posonlyargs=[], args=[], vararg=None, kwonlyargs=[],
                                                                               kw_defaults=[], kwarg=None, defaults=[]),
-                                 body=list(loop.body), decorator_list=[], returns=None, type_comment=None)
+                                 body=list(loop.body) + ([ast.Return(value=ast.Tuple(elts=[ast.Name(id=o, ctx=ast.Load()) for o in outs],
+                                                                                      ctx=ast.Load()))] if outs else []),
+                                 decorator_list=[], returns=None, type_comment=None)
+            ast.fix_missing_locations(fn)
             ast.copy_location(fn, loop)
             fn.end_lineno = loop.end_lineno
             fn.end_col_offset = loop.end_col_offset
